@@ -6,6 +6,8 @@ Open Scope string_scope.
 Inductive case :=
 | CaseE (i : exp_in) (deletes : nat) (r : res)                 (* expiration.Controller.Reconcile *)
 | CaseG (i : gc_in) (deleted : list string) (r : res)          (* garbagecollection.Controller.Reconcile *)
+| CaseG2 (o : gorder) (w0 w1 : gworld) (nodes : list gnode) (nf : list string)  (* GC with an event between its two reads; *)
+         (deleted : list string) (r : res)                                         (* o = the read order that was observed *)
 | CaseL (i : lv_in) (deletes : nat) (r : res)                  (* lifecycle.Liveness.Reconcile *)
 | CaseR (i : rp_in) (patches deletes : nat) (r : res).         (* health.Controller.Reconcile *)
 
@@ -29,6 +31,10 @@ Definition check_case (c : case) : list string :=
   | CaseG i dl r =>
       let '(md, mr) := gc i in
       tags "gc" (strs_eqb dl md) (res_eqb r mr) (gc_holds_b i dl)
+  | CaseG2 o w0 w1 nodes nf dl r =>
+      let '(md, mr) := gc2 w0 w1 nodes nf in
+      (if gorder_eqb o ClaimsFirst then [] else ["corr:gc-read-order"]) ++
+      tags "gc-two-reads" (strs_eqb dl md) (res_eqb r mr) (gc2_holds_b o w0 w1 nodes nf dl)
   | CaseL i d r =>
       let '(md, mr) := liveness i in
       tags "liveness" (Nat.eqb d md) (res_eqb r mr) (lv_holds_b i d)
